@@ -447,7 +447,8 @@ def manifold_invariants(seed, n, chain_len=None):
             ang = float(P[2])
             if not (-math.pi <= ang <= math.pi):
                 bad('SE2 angle out of [-pi,pi] after ' + nm, {'class': 'SE2', 'theta': th, 'theta2': th2, 'angle': ang})
-            if abs(math.sin((ang - exact) / 2.0)) > 1e-9 * max(1.0, abs(th), abs(th2)):
+            # the float period 2*pi_f differs from 2*pi by 2.4e-16 relative: after |angle| / 2pi turns that is 2.5e-16 * |angle| -- nothing else may add up
+            if abs(math.sin((ang - exact) / 2.0)) > 1e-9 + 2e-15 * (abs(th) + abs(th2)):
                 bad('SE2 angle not congruent to the exact angle after ' + nm, {'class': 'SE2', 'theta': th, 'theta2': th2, 'angle': ang, 'exact': exact})
     # SE(2) poses constructed from a homogeneous matrix: hand-written quarter / half turns (with either sign of zero), matrices of angles next to the
     # branch cut, and PRODUCTS of two matrices whose angles add up to +-pi (rounding noise of either sign in the off-diagonal entries)
